@@ -1,5 +1,5 @@
 (* C16 — Compaction never changes the latest value of any key. *)
-From KV Require Import Base Model Helpers Spec LogInv ScanProofs TrimProofs CompactProofs MultiProofs.
+From KV Require Import Base Model Helpers Spec LogInv ScanProofs TrimProofs CompactProofs MultiProofs TimeProofs.
 
 (* FindUpdates is one forward pass over the live messages not newer than the cut-off, tracking the last offset
    per key: a pure fold *)
@@ -75,3 +75,15 @@ Theorem C16_updates_complete :
   forall P o, has_later P o -> In o (fst (fold_left upd_g P ([], []))).
 Proof. exact upd_complete. Qed.
 Print Assumptions C16_updates_complete.
+
+(* the third sentence of the property: when times never decrease, CompactUpdates leaves at most one message per key
+   among the messages not newer than the cut-off *)
+Theorem C16_one_per_key_on_monotone_times :
+  forall (H : bytes -> Z) c st before lo,
+  Inv st -> opened st = Some c -> cro c = false -> tmono lo (live (abs st)) ->
+  exists st' del size,
+    trim_multi H (fun s => find_updates H s before) st = (st', del, size, None) /\ Inv st' /\
+    forall x y, In x (live (abs st')) -> In y (live (abs st')) -> mtime x <= before -> mtime y <= before ->
+                mkey x = mkey y -> x = y.
+Proof. exact compact_updates_one_per_key. Qed.
+Print Assumptions C16_one_per_key_on_monotone_times.
